@@ -1115,6 +1115,10 @@ func (iqr *IQR) MergeIQRStatsResults(iqrs []*IQR) (bool, error) {
 
 	if statsType.IsSegmentStatsCmd() {
 		finalSegStatsMap := segStatsRes.GetSegStats()
+		// Keep the merged stats: this IQR is merged again with the next one, and
+		// columns missing from its own map would otherwise lose everything merged
+		// so far.
+		iqr.statsResults.segStatsMap = finalSegStatsMap
 		err = iqr.CreateSegmentStatsResults(searchResults, finalSegStatsMap, searchResults.GetAggs().MeasureOperations)
 	} else {
 		err = iqr.CreateGroupByStatsResults(searchResults)
